@@ -4,7 +4,7 @@ d=json.load(open(sys.argv[1]))
 print('events',d['events'],'distinct',d['distinct_nontrivial'],'viol',d['violation_count'],'canaries',d['canaries'],'ops',len(d['ops']),'exh',len(d['exhaustive']),d['notes'],d['inconclusive'])
 bad={k:v['violations'] for k,v in d['ops'].items() if v['violations']}
 print(len(bad), list(bad.items())[:40])
-for v in d['violations'][:int(sys.argv[2]) if len(sys.argv)>2 else 12]: print(' *',v['type'],v['op'],v['kind'],v['tags'],'|',v['input'],'| got',v['got'][:300],'| exp',v['expected'][:300],'|',v['note'])
+for v in d['violations'][:int(sys.argv[2]) if len(sys.argv)>2 else 12]: print(' *',v['type'],v['op'],v['kind'],v['tags'],'|',v['input'][:300],'| got',v['got'][:300],'| exp',v['expected'][:300],'|',v['note'])
 print('panics_expected',sum(o['panics_expected'] for o in d['ops'].values()),'boundary',sum(o['boundary'] for o in d['ops'].values()))
 mr=sorted(((o['max_ratio'],k) for k,o in d['ops'].items() if isinstance(o['max_ratio'],(int,float)) and o['max_ratio']>0),reverse=True)[:15]
 print('max ratios',mr)
